@@ -1076,20 +1076,26 @@ Definition eres := (dbstate * bool)%type.
 Definition ebind (m : eres) (f : dbstate -> eres) : eres :=
   match m with (db, true) => (db, true) | (db, false) => f db end.
 
+(* `table_exists` above is the library's SQLiteConnection.tableExists: the name compared
+   with `=`, i.e. exactly.  The ENGINE resolves table names without regard to ASCII case. *)
+Definition same_name_ci (a b : str) : bool := str_eqb (upper_s a) (upper_s b).
+Definition eng_has (db : dbstate) (n : str) : bool :=
+  existsb (fun t => same_name_ci (t_name t) n) (db_tables db).
+
 (* engine: CREATE TABLE fails when the name is taken, DROP TABLE when it is
    absent; dropping a table drops its indexes; index names are schema-wide *)
 Definition eng_create (db : dbstate) (n : str) (cols : list str) : eres :=
-  if table_exists db n then (db, true)
+  if eng_has db n then (db, true)
   else ({| db_tables := db_tables db ++ [{| t_name := n; t_cols := cols; t_rows := [] |}];
            db_indexes := db_indexes db |}, false).
 Definition eng_drop (db : dbstate) (n : str) : eres :=
-  if table_exists db n
-  then ({| db_tables := remove_table (db_tables db) n;
-           db_indexes := filter (fun ix => negb (str_eqb (snd ix) n)) (db_indexes db) |}, false)
+  if eng_has db n
+  then ({| db_tables := filter (fun t => negb (same_name_ci (t_name t) n)) (db_tables db);
+           db_indexes := filter (fun ix => negb (same_name_ci (snd ix) n)) (db_indexes db) |}, false)
   else (db, true).
 Definition eng_create_index (db : dbstate) (name tbl : str) : eres :=
-  if existsb (fun ix => str_eqb (fst ix) name) (db_indexes db) || table_exists db name
-     || negb (table_exists db tbl) then (db, true)
+  if existsb (fun ix => str_eqb (fst ix) name) (db_indexes db) || eng_has db name
+     || negb (eng_has db tbl) then (db, true)
   else ({| db_tables := db_tables db; db_indexes := db_indexes db ++ [(name, tbl)] |}, false).
 
 Definition class_cols (dc : decl) : list str := idname_of dc :: map (dbname_of (d_style dc)) (d_cols dc).
